@@ -17,6 +17,7 @@ type LFile struct {
 	Docs []int  `json:"docs"`
 	JSON bool   `json:"json,omitempty"` // rendered as a stream of JSON objects (path ends in .json)
 	Link bool   `json:"link,omitempty"` // stored outside the directory and reached through a symlink
+	List bool   `json:"list,omitempty"` // its documents are wrapped into one `kind: List`
 }
 
 // Layout assigns every document of a resource set to a file and a position.
@@ -50,11 +51,36 @@ func joinDocsJSON(docs []Doc, idx []int) (string, bool) {
 	return sb.String(), true
 }
 
+// joinDocsList wraps the documents into one v1 List (the directory scanner flattens it again).
+func joinDocsList(docs []Doc, idx []int) (string, bool) {
+	var items []interface{}
+	for _, i := range idx {
+		var m map[string]interface{}
+		if err := yaml.Unmarshal([]byte(docs[i].Text), &m); err != nil || m == nil {
+			return "", false
+		}
+		if k, _ := m["kind"].(string); strings.HasSuffix(k, "List") {
+			return "", false
+		}
+		items = append(items, m)
+	}
+	b, err := yaml.Marshal(map[string]interface{}{"apiVersion": "v1", "kind": "List", "items": items})
+	if err != nil {
+		return "", false
+	}
+	return string(b), true
+}
+
 func (l Layout) fs(prefix string, docs []Doc) []FSEntry {
 	res := []FSEntry{{Path: prefix, Dir: true}}
 	for k, f := range l {
 		text := joinDocs(docs, f.Docs)
 		path := f.Path
+		if f.List && !f.JSON {
+			if t, ok := joinDocsList(docs, f.Docs); ok {
+				text = t
+			}
+		}
 		if f.JSON {
 			if t, ok := joinDocsJSON(docs, f.Docs); ok {
 				text = t
@@ -116,7 +142,7 @@ func randomLayout(r *rng, n int) Layout {
 		}
 		ext := pick(r, layoutExts)
 		name := fmt.Sprintf("%s%02d%s", string(rune('a'+r.intn(26))), len(l), ext)
-		l = append(l, LFile{Path: filepath.Join(pick(r, layoutDirs), name), Docs: cur, JSON: ext == ".json", Link: r.chance(1, 8)})
+		l = append(l, LFile{Path: filepath.Join(pick(r, layoutDirs), name), Docs: cur, JSON: ext == ".json", Link: r.chance(1, 8), List: r.chance(1, 6)})
 		cur = []int{}
 	}
 	for k, i := range p {
@@ -144,7 +170,7 @@ func (l Layout) restrict(keep []int) Layout {
 			}
 		}
 		if len(d) > 0 {
-			res = append(res, LFile{Path: f.Path, Docs: d, JSON: f.JSON, Link: f.Link})
+			res = append(res, LFile{Path: f.Path, Docs: d, JSON: f.JSON, Link: f.Link, List: f.List})
 		}
 	}
 	return res
